@@ -136,6 +136,15 @@ def run_create(p):
     for obj, attr in ((cfg, "max_workers"), (cfg.binning, "method"), (cfg.scales, "rweight"), (cfg, "cosmology")):
         ck.raises(lambda: setattr(obj, attr, None), f"immutable:{type(obj).__name__}.{attr}")
     ck.expect(fields(cfg) == fields(cfg2), "create:not-deterministic")
+    # the same parameters with another cosmology, in the same process: nothing of the first
+    # configuration may carry over (the two unnamed test cosmologies differ in Om0 and curvature)
+    p2 = dict(copy.deepcopy(p), cosmology="curved" if p["cosmology"] != "curved" else "custom")
+    ok, cfg3 = ck.call(lambda: Configuration.create(**create_kwargs(p2)), f"create:{p2['method']}:{p2['cosmology']}")
+    if ok:
+        n_before = len(ck.fails)
+        check_config(ck, cfg3, p2, "create")
+        for r in ck.fails[n_before:]:
+            r.sig = "after-other-cosmology:" + r.sig
     return ck.results()
 
 
